@@ -97,6 +97,33 @@ func (e *Exec) supportSweep(label string, evars []*smt.Term, w int) {
 		w = last + 1
 	}
 	rec(0, nil)
+	nLast := len(supports)
+	// The shift argument ("move the pattern so that its last non-zero symbol is the last symbol")
+	// holds for the genuine cyclic code but is not something a changed decoder must respect, so it
+	// is not relied upon for low weights: ALL supports of size <= fullw (default 2), wherever they
+	// lie, are swept as well (a position-dependent weakness shows up at weight 1 or 2).
+	fullw := e.Cfg.Params["fullw"]
+	if fullw == 0 {
+		fullw = 2
+	}
+	if fullw > w {
+		fullw = w
+	}
+	var recAny func(start int, cur []int)
+	recAny = func(start int, cur []int) {
+		if len(cur) == fullw {
+			if cur[len(cur)-1] != last { // those containing the last position are already listed
+				supports = append(supports, append([]int{}, cur...))
+			}
+			return
+		}
+		for i := start; i < n; i++ {
+			recAny(i+1, append(cur, i))
+		}
+	}
+	if fullw >= 1 && fullw <= n {
+		recAny(0, nil)
+	}
 	workers := e.Cfg.Workers
 	if workers < 1 {
 		workers = 1
@@ -157,8 +184,17 @@ func (e *Exec) supportSweep(label string, evars []*smt.Term, w int) {
 					}
 				}
 				var lastBits []string
-				for b := 0; b < bitsPer; b++ {
-					lastBits = append(lastBits, fmt.Sprintf("x%d_%d", last, b))
+				if k < nLast {
+					for b := 0; b < bitsPer; b++ {
+						lastBits = append(lastBits, fmt.Sprintf("x%d_%d", last, b))
+					}
+				} else {
+					// support anywhere: some symbol of the pattern is non-zero
+					for _, j := range S {
+						for b := 0; b < bitsPer; b++ {
+							lastBits = append(lastBits, fmt.Sprintf("x%d_%d", j, b))
+						}
+					}
 				}
 				fmt.Fprintf(&sb, "(assert (or %s))\n", strings.Join(lastBits, " "))
 				if trivialFalse {
@@ -200,7 +236,7 @@ func (e *Exec) supportSweep(label string, evars []*smt.Term, w int) {
 	e.SweepSupports += len(supports)
 	e.SweepMs += solverMs
 	ob := Obligation{Label: label, Harness: e.Cfg.Name, Kind: "assert", Where: e.where(), Millis: solverMs,
-		Note: fmt.Sprintf("%d supports of size %d over %d positions (last position included), %d XOR equations; unsat=%d unknown=%d", len(supports), w, n, len(eqs), nUnsat, nUnknown)}
+		Note: fmt.Sprintf("%d supports of size %d over %d positions containing the last position + all %d supports of size %d anywhere, %d XOR equations; unsat=%d unknown=%d", nLast, w, n, len(supports)-nLast, fullw, len(eqs), nUnsat, nUnknown)}
 	switch {
 	case len(hits) > 0:
 		sort.Slice(hits, func(i, j int) bool { return fmt.Sprint(hits[i].s) < fmt.Sprint(hits[j].s) })
